@@ -619,7 +619,7 @@ def random_query(rng: PlanRng, meta, solver_ok=True, slow_ok=True):
         lambda: {"q": "fit", "a": {"B": B, "model": "gaussian",
                                     "batch_size": rng.choice([1, 1, 2, "full"])}},
         lambda: {"q": "fit", "a": {"B": B, "model": (
-            "excitation" if (slow_ok and rng.coin(0.1)) else "poisson")}},
+            "excitation" if (slow_ok and rng.coin(0.04)) else "poisson")}},
         lambda: {"q": "fit", "a": {"B": B}},
         lambda: {"q": "fit_underdetermined", "a": {"B": "Bin?", "opt": rng.choice([None, "min", "max",
                                                                                     "var"])}},
@@ -855,7 +855,7 @@ def generate(rs, mode, tier, index):
                 muts += 1
             while rng.coin(q_density / (1 + q_density)):
                 q = random_query(rng, meta)
-                past = [o for o in ops if "q" in o]
+                past = [o for o in ops if "q" in o and o.get("a", {}).get("model") != "excitation"]
                 if past and rng.coin(0.3):
                     # the very same request again, after whatever was registered since
                     q = copy.deepcopy(rng.choice(past))
@@ -1047,7 +1047,8 @@ def execute(plan):
             if ok2 or ok3:
                 bump("ulp_borderline_mismatch_not_confirmed")
                 ok = True
-        explicit_B = q.get("a", {}).get("B") is not None and q["q"] not in ("props",)
+        explicit_B = q.get("a", {}).get("B") is not None and q["q"] not in ("props",) \
+            and q.get("a", {}).get("model") != "excitation"      # (seconds per call)
         if ok and faulted_outcome is None and explicit_B and cs.sym.has_tgt and \
                 not cs.sym.has_W and cs.nf_not is not None:
             # a query with explicit targets reads neither the registered targets nor - when
